@@ -45,6 +45,9 @@ Graphs == [
   extl |-> [nodes |-> [m |-> Im("oci", <<K("c", "cfg"), K("l1", "lay"), K("lx", "ext")>>, "", ""),
                        c |-> Bl("cfg"), l1 |-> Bl("norm"), lx |-> Bl("norm")],
             roots |-> <<Rt("m", "v1")>>, victim |-> "lx"],
+  \* a layer addressed by a sha512 digest (blobs/sha512/<hex>)
+  alg512 |-> [nodes |-> [m |-> Im("oci", <<K("c", "cfg"), K("l5", "lay")>>, "", ""), c |-> Bl("cfg"), l5 |-> Bl("sha512")],
+              roots |-> <<Rt("m", "v1")>>, victim |-> "l5"],
   dimg |-> [nodes |-> [m |-> Im("docker", <<K("c", "cfg"), K("l1", "lay")>>, "", ""), c |-> Bl("cfg"), l1 |-> Bl("norm")],
             roots |-> <<Rt("m", "v1")>>, victim |-> "l1"],
   \* artifact: config and the only layer are the same blob {} ; it has a subject that is not part of it
@@ -135,7 +138,9 @@ ClosureN(nodes, n) == Lvl(nodes, n, 4)                       \* graphs are at mo
 RootNodes(g) == {g.roots[i].n : i \in 1..Len(g.roots)}
 Exported(g) == UNION {ClosureN(g.nodes, r) : r \in RootNodes(g)}
 DepthN(nodes, n) == 1 + Cardinality({k \in 1..4 : Lvl(nodes, n, k) # Lvl(nodes, n, k - 1)})
-BPath(n) == <<"blobs", "sha256", "#" \o n>>
+\* by convention of the catalogue the nodes named in Sha512Nodes are addressed by a sha512 digest
+Sha512Nodes == {"l5"}
+BPath(n) == <<"blobs", IF n \in Sha512Nodes THEN "sha512" ELSE "sha256", "#" \o n>>
 \* manifest.json is written by ImageExport when the exported manifest is a single image
 SingleImage(g) == Len(g.roots) = 1 /\ g.nodes[g.roots[1].n].k = "image"
 DockerOf(g) == IF SingleImage(g)
@@ -204,7 +209,7 @@ Mk(gn, lp, sn) ==
            maxpass |-> 2 + NLinks(E) + (IF gn = "dksym" THEN 1 ELSE 0), preblobs |-> {}, premans |-> {},
            bad |-> IF gn = "dksame" THEN "duppath" ELSE ""]
 
-OciSmall == {"eidx", "single1", "emptyl", "inline", "dimg", "art"}         \* archives of <= 6 entries
+OciSmall == {"eidx", "single1", "emptyl", "inline", "dimg", "art", "alg512"}         \* archives of <= 6 entries
 OciMid == {"single1m", "single2", "extl", "nested", "blobent", "unkent", "emptyent", "sharedent", "idxsame"}   \* 7
 OciBig == {"idx2", "dock", "multi"}                                        \* 8
 LinkAll == (LinkOK \cup LinkBad) \ {"none"}
@@ -222,11 +227,13 @@ QuickIds == ({"eidx", "single1", "art"} \X {"none"} \X {"def"})
 \* small: the other archives of <= 6 entries
 SmallIds == ((OciSmall \ {"eidx", "single1", "art"}) \X {"none"} \X {"def"})
             \cup ({"art"} \X {"symabs", "hardext", "symup", "dotslash", "junk", "dirs"} \X {"def"})
+            \cup ({"alg512"} \X {"symroot"} \X {"def"})
 \* mid: archives of 7 entries
 MidIds == (OciMid \X {"none"} \X {"def"})
           \cup ({"art"} \X {"chain2"} \X {"def"})
-          \cup ({"blobent", "nested", "idxsame"} \X {"none"} \X {"preblobs", "preall"})
-          \cup ({"single1", "single1m"} \X {"symroot", "hardext", "symsib", "idxlink", "dotslash", "junk"} \X {"def"})
+          \cup ({"blobent"} \X {"none"} \X {"preblobs", "preall"}) \cup ({"nested", "idxsame"} \X {"none"} \X {"preall"})
+          \cup ({"single1"} \X {"symroot", "symsib", "idxlink"} \X {"def"})
+          \cup ({"single1m"} \X {"symroot", "hardext", "symsib"} \X {"def"})
 \* big: archives of 8 entries (one of them explored exhaustively, all of them by random orders)
 BigIds == ((OciBig \ {"multi"}) \X {"none"} \X {"def"}) \cup MultiIds
           \cup ({"art"} \X {"chain3"} \X {"def"})
